@@ -41,7 +41,7 @@ Where == [trace |-> Call.id, file |-> fi]
 
 ModeOf(api) == CASE api \in {"decode", "chained"} -> "full"
                  [] api = "integrity" -> "crc"
-                 [] api \in {"integrity_hdr", "header"} -> "header"
+                 [] api \in {"integrity_hdr", "header", "header_method"} -> "header"
                  [] api = "header_fileid" -> "fileid"
 
 HasFile == fi <= Len(Call.ret.files)
